@@ -176,6 +176,17 @@ class Engine:
         if node.kind not in ('call', 'call_enter', 'call_return'):
             return ''
         f = node.ast.func
+        if isinstance(f, ast.Name) and node.frame is not None and \
+                f.id in node.frame.ctx.func.params:
+            # a callable the caller handed in (`open_fd()` with open_fd =
+            # partial(mkstemp, dir=...)): the name of what is really called
+            res = node.extra.get('res')
+            via = getattr(res, 'via', None) if res is not None else None
+            vf = getattr(via, 'func', None)
+            if isinstance(vf, ast.Attribute):
+                return vf.attr
+            if isinstance(vf, ast.Name) and vf.id != f.id:
+                return vf.id
         if isinstance(f, ast.Attribute):
             return f.attr
         if isinstance(f, ast.Name):
